@@ -259,7 +259,9 @@ pub fn draw(seed: u64, i: u64, tasks: &[Task], thorough: bool) -> Scenario {
     // a third program, anywhere (only unambiguous when there is no .spec)
     if !has_spec && rng.pct(30) {
         // a third program: one of its own, a copy of the first, an empty file, or comments only
-        let c = match rng.below(4) {
+        let c = match rng.below(5) {
+            // (a file that is not even mini-gringo: it has no role unless the order gives it one)
+            4 => "#const n = 3.\n#show p/1.\np(X) :- X = #count { Y : q(Y) }.\n".to_string(),
             0 => "zzthird(1).\nzzthird(X) :- zzthird(X), X > 5.\n".to_string(),
             1 => pool.iter().find(|p| p.0 == "lp1").map(|p| p.2.clone()).unwrap_or_else(|| "p.\n".into()),
             2 => String::new(),
@@ -327,6 +329,27 @@ pub fn draw(seed: u64, i: u64, tasks: &[Task], thorough: bool) -> Scenario {
             dir_used[choice - 1] = true;
             let sub = if rng.pct(25) { format!("{d}/{}{}sub", if rng.pct(15) { "." } else { "" }, (b'a' + rng.below(26) as u8) as char) } else { d.clone() };
             files.push(FileEntry { path: format!("{sub}/{name}"), content, meant });
+        }
+    }
+    // two role files may carry the same file name when they live in different directories
+    if rng.pct(20) {
+        let idx: Vec<usize> = files.iter().enumerate().filter(|(_, f)| f.meant == "lp1" || f.meant == "lp2").map(|(i, _)| i).collect();
+        if idx.len() == 2 {
+            let dir_of = |p: &str| p.rfind('/').map(|k| p[..k].to_string()).unwrap_or_default();
+            let (a, b) = (files[idx[0]].path.clone(), files[idx[1]].path.clone());
+            if dir_of(&a) != dir_of(&b) {
+                let base = a.rsplit('/').next().unwrap().to_string();
+                let d = dir_of(&b);
+                let new_path = if d.is_empty() { base } else { format!("{d}/{base}") };
+                if !files.iter().any(|f| f.path == new_path) {
+                    for arg in args.iter_mut() {
+                        if *arg == b {
+                            *arg = new_path.clone();
+                        }
+                    }
+                    files[idx[1]].path = new_path;
+                }
+            }
         }
     }
     for (d, u) in dirs.iter().zip(&dir_used) {
